@@ -16,7 +16,7 @@ LEVEL_TEXT = ("Coq theorems over an abstract field with conjugation and an abstr
               "Tie: the same Gallina terms are run at binary64 pairs with a harness-supplied twiddle table (every NFFT<=32/64, all 29 "
               "windows whose samples are taken from the implementation) and exactly at Gaussian rationals for NFFT in {1,2,4}; "
               "a search with an independent O(N*NFFT) DFT oracle evaluates every clause on the implementation.")
-TRUSTED = ["Coq 8.16.1 kernel + vm_compute (PrimFloat only in the correspondence run, never under a theorem)",
+TRUSTED = ["loop-IR tie (tools/props/_loopir.py + coq/Model/LoopIR.v, trusted as the semantics of the accepted Python/numpy fragment): CORRELOGRAMPSD (correlation_method='CORRELATION' embedded, xcorr an oracle) and the 1-D path of speriodogram are regenerated from the source on every run; numpy.fft.fft/rfft = the DFT specification over a hidden twiddle parameter; Window(N, name).data, numpy.pi, pylab_rms_flat are oracle inputs; the run equals the hand models exactly at QcC (tw1/tw2/tw4) and at binary64 (speriodogram bit for bit)", "Coq 8.16.1 kernel + vm_compute (PrimFloat only in the correspondence run, never under a theorem)",
            "hand-written model coq/Model/Periodogram.v (+ Model/Corr.v), tied to periodogram.py / correlog.py / psd.py by the correspondence run only",
            "numpy.fft.fft/rfft modelled as the DFT sum over a twiddle character (Theory/Dft.v), scipy.signal.correlate as the lag sums: specifications, not verified",
            "window samples are inputs of the model (Window(N,name).data of the snapshot); their own correctness is C20",
@@ -784,6 +784,10 @@ def run(ctx):
                            'where': 'periodogram.py / psd.py', 'log': str(e)[:2000]})
     else:
         ctx.check_generated('c01_pipeline', vtext, ['call_pipeline_is_modelled'])
+    # CORRELOGRAMPSD (correlation_method='CORRELATION' embedded; xcorr an oracle) and the 1-D path of speriodogram regenerated from the source into the
+    # loop-IR vs the hand models: exact at QcC with tw1 / tw2 / tw4, binary64 against the model (bit for bit) and the implementation
+    from props._loopir import loopir_tie
+    loopir_tie(ctx, ['CORRELOGRAMPSD', 'speriodogram'])
     pre = pre_float()
     requeue = []
     for nm, gen, pr, descr in (
